@@ -230,6 +230,9 @@ func (lc *leaderController) Term() int64 {
 // Any existing follow cursors are destroyed as is any state
 // regarding reconfigurations.
 func (lc *leaderController) NewTerm(req *proto.NewTermRequest) (*proto.NewTermResponse, error) {
+	// Wait for any write that has already been assigned an offset to reach the WAL
+	lc.writeOrder.Lock()
+	defer lc.writeOrder.Unlock()
 	lc.Lock()
 	defer lc.Unlock()
 
@@ -283,6 +286,13 @@ func (lc *leaderController) NewTerm(req *proto.NewTermRequest) (*proto.NewTermRe
 	}
 
 	lc.followers = nil
+
+	// Entries that were appended but not yet synced are part of the log too: make
+	// them visible, so that the head entry we report is really the end of the log
+	if err := lc.wal.Sync(context.Background()); err != nil {
+		return nil, err
+	}
+
 	headEntryId, err := getLastEntryIdInWal(lc.wal)
 	if err != nil {
 		return nil, err
